@@ -188,7 +188,16 @@ def obligations(r, tier, seed):
             fr.unchanged("after all edge queries")
         obs.append(Ob("C15/edge-queries-are-pure/%s/%s-%s" % (kind, TA, TB), edge_queries, funcs=FUNCS, light=True, max_paths=64, eager=(TA == "SE3")))
 
-    def equals_pure(k):
+    def eq_twice(k, a, b, tol):
+        r1 = a.equals(b, tol)
+        r2 = a.equals(b, tol)
+        k.implies(r1, r2, "equals: a second call gives the same answer")
+        k.implies(r2, r1, "equals: a second call gives the same answer (converse)")
+
+    EQ_FUNCS = ["graphslam.pose.base_pose.BasePose.equals", "graphslam.vertex.Vertex.equals", "graphslam.edge.base_edge.BaseEdge.equals",
+                "graphslam.edge.edge_landmark.EdgeLandmark.equals", "graphslam.graph.Graph.equals"]
+
+    def equals_pure_2d(k):
         r_ = k.r
         tol = k.pos("tol")
         v1, v2 = r_.Vertex(0, k.pose("SE2", "a")), r_.Vertex(0, k.pose("SE2", "b"))
@@ -198,13 +207,44 @@ def obligations(r, tier, seed):
         g1, g2 = r_.Graph([], [v1]), r_.Graph([], [v2])
         fr = Frame(k, [v1, v2], [e1, e2, l1])
         for a, b in ((v1.pose, v2.pose), (v1, v2), (e1, e2), (l1, l1), (l1, e1), (g1, g2)):
-            r1 = a.equals(b, tol)
-            r2 = a.equals(b, tol)
-            k.implies(r1, r2, "equals: a second call gives the same answer")
-            k.implies(r2, r1, "equals: a second call gives the same answer (converse)")
+            eq_twice(k, a, b, tol)
         fr.unchanged("after equals on poses, vertices, edges and graphs")
-    obs.append(Ob("C15/equals-is-pure", equals_pure, funcs=["graphslam.pose.base_pose.BasePose.equals", "graphslam.vertex.Vertex.equals",
-                  "graphslam.edge.base_edge.BaseEdge.equals", "graphslam.edge.edge_landmark.EdgeLandmark.equals", "graphslam.graph.Graph.equals"], light=True, max_paths=2000))
+    obs.append(Ob("C15/equals-is-pure/2d-objects", equals_pure_2d, funcs=EQ_FUNCS, light=True, max_paths=2000))
+
+    # SE(3): BOTH operands must be left alone whatever the relation of the two quaternions (same / opposite hemisphere, q vs -q)
+    for which in ("poses", "pose-vs-negated", "vertices", "odometry-edges", "graphs"):
+        def equals_pure_se3(k, which=which):
+            r_ = k.r
+            tol = k.pos("tol")
+            c, d = k.pose("SE3", "c"), k.pose("SE3", "d")
+            cneg = r_.PoseSE3([c[0], c[1], c[2]], [-c[3], -c[4], -c[5], -c[6]])
+            if which == "poses":
+                fr = Frame(k, extra_arrays=[c, d])
+                eq_twice(k, c, d, tol)
+                eq_twice(k, d, c, tol)
+            elif which == "pose-vs-negated":
+                fr = Frame(k, extra_arrays=[c, cneg])
+                eq_twice(k, c, cneg, tol)
+                eq_twice(k, cneg, c, tol)
+            elif which == "vertices":
+                w1, w3 = r_.Vertex(3, c), r_.Vertex(3, cneg)
+                fr = Frame(k, [w1, w3])
+                eq_twice(k, w1, w3, tol)
+                eq_twice(k, w3, w1, tol)
+            elif which == "odometry-edges":
+                o1, o2 = r_.EdgeOdometry([0, 1], k.np.eye(6), c), r_.EdgeOdometry([0, 1], k.np.eye(6), cneg)
+                o3 = r_.EdgeOdometry([0, 1], k.np.eye(6), d)
+                fr = Frame(k, [], [o1, o2, o3])
+                eq_twice(k, o1, o2, tol)
+                eq_twice(k, o3, o1, tol)
+            else:
+                ga = r_.Graph([r_.EdgeOdometry([0, 1], k.np.eye(6), c)], [r_.Vertex(0, k.pose("SE3", "p")), r_.Vertex(1, k.pose("SE3", "q"))])
+                gb = r_.Graph([r_.EdgeOdometry([0, 1], k.np.eye(6), cneg)], [r_.Vertex(0, k.pose("SE3", "p")), r_.Vertex(1, k.pose("SE3", "q"))])
+                fr = Frame(k, list(ga._vertices) + list(gb._vertices), list(ga._edges) + list(gb._edges))
+                eq_twice(k, ga, gb, tol)
+                eq_twice(k, gb, ga, tol)
+            fr.unchanged("after equals")
+        obs.append(Ob("C15/equals-is-pure/SE3-%s" % which, equals_pure_se3, funcs=EQ_FUNCS, light=True, max_paths=2000))
 
     # ---- results do not alias the state: mutating what a query returned cannot change the state
     def results_are_fresh(k):
